@@ -149,7 +149,11 @@ static void janet_cache_resize(uint32_t newCapacity) {
 static void janet_symcache_put(const uint8_t *x, const uint8_t **bucket) {
     if ((janet_vm.cache_count + janet_vm.cache_deleted) * 2 > janet_vm.cache_capacity) {
         int status;
-        janet_cache_resize(janet_tablen((2 * janet_vm.cache_count + 1)));
+        int32_t newcapacity = janet_tablen((2 * janet_vm.cache_count + 1));
+        /* A cache of 2 slots would be filled completely by the second symbol,
+         * and lookups need a free slot to terminate. */
+        if (newcapacity < 4) newcapacity = 4;
+        janet_cache_resize(newcapacity);
         bucket = janet_symcache_find(x, &status);
     }
     /* Add x to the cache */
